@@ -137,6 +137,36 @@ func c04Eval(c *fw.Ctx, kase c04Case, db *wt.Whisper) (sig, desc string, obs Fet
 	return
 }
 
+// c04Wrapper calls Whisper.Fetch with the library's clock variable set to the case's instant and compares the
+// outcome with what FetchFromArchive(best) just returned for the same window.
+func c04Wrapper(cfg ACfg, k c04Case, db *wt.Whisper, ref FetchObs, refN int) (sig, desc string) {
+	wt.Now = vrt.Now
+	vrt.SetNow(k.Now)
+	defer vrt.SetNow(0)
+	var o FetchObs
+	n := 0
+	panicked, txt := fw.Guard(func() {
+		ts, err := db.Fetch(wt.Timestamp(k.From), wt.Timestamp(k.Until))
+		switch {
+		case err != nil:
+			o.Err = true
+		case ts == nil:
+			o.Nil = true
+		default:
+			o.From, o.Until, o.Step = int64(ts.FromTime()), int64(ts.UntilTime()), int64(ts.Step())
+			n = len(ts.Values())
+		}
+	})
+	if panicked {
+		return "C04/wrapper/panic", fmt.Sprintf("layout %s now=%d Fetch(%d, %d) panicked: %s", cfg.Spec, k.Now, k.From, k.Until, firstLine(txt))
+	}
+	if o.Err != ref.Err || o.Nil != ref.Nil || o.From != ref.From || o.Until != ref.Until || o.Step != ref.Step || n != refN {
+		return "C04/wrapper/differs-from-best-archive-fetch", fmt.Sprintf("layout %s content=%s clock=%d: Fetch(from=%d, until=%d) gives err=%v nil=%v [%d,%d) step %d n=%d, FetchFromArchive(best, ..., now=%d) gives err=%v nil=%v [%d,%d) step %d n=%d",
+			cfg.Spec, k.Content, k.Now, k.From, k.Until, o.Err, o.Nil, o.From, o.Until, o.Step, n, k.Now, ref.Err, ref.Nil, ref.From, ref.Until, ref.Step, refN)
+	}
+	return "", ""
+}
+
 func runC04(c *fw.Ctx) {
 	layouts := append([]LayoutDef{}, CoreLayouts...)
 	layouts = append(layouts, LP)
@@ -196,8 +226,14 @@ func runC04(c *fw.Ctx) {
 							kase := c04Case{Cfg: cfg, Content: cn, Now: now, ID: id, From: w.From, Until: w.Until}
 							sig, desc, obs := c04Eval(c, kase, db)
 							c.Count("transitions", 1)
+							nvals := len(obs.Vals)
 							obs.Vals = nil
 							shapes[cn] = append(shapes[cn], obs)
+							if sig == "" && id == -1 {
+								// the clock-reading wrapper Fetch(from, until) is FetchFromArchive(best, from, until, <clock>): same shape
+								sig, desc = c04Wrapper(cfg, kase, db, obs, nvals)
+								c.Count("wrapper_fetches", 1)
+							}
 							if sig == "" {
 								c.Count("traces_validated_against_impl", 1)
 								sh := model.FetchShape(cfg.Archs, id, w.From, w.Until, now)
@@ -251,6 +287,9 @@ func replayC04(c *fw.Ctx, raw json.RawMessage) (bool, string) {
 		return false, "open: " + err.Error()
 	}
 	defer db.Close()
-	sig, desc, _ := c04Eval(c, k, db)
+	sig, desc, obs := c04Eval(c, k, db)
+	if sig == "" && k.ID == -1 {
+		sig, desc = c04Wrapper(k.Cfg, k, db, obs, len(obs.Vals))
+	}
 	return sig != "", desc
 }
